@@ -607,6 +607,7 @@ func (in *inst) sqlYield(c *astutil.Cursor, s ast.Stmt) {
 		return
 	}
 	found := false
+	holds := false // the statement's result holds a database connection (*sql.Rows, *sql.Tx)
 	for _, h := range headerExprs(s) {
 		if h == nil || isNilNode(h) {
 			continue
@@ -633,6 +634,10 @@ func (in *inst) sqlYield(c *astutil.Cursor, s ast.Stmt) {
 						switch sel.Sel.Name {
 						case "Exec", "ExecContext", "Query", "QueryContext", "QueryRow", "QueryRowContext", "Prepare", "PrepareContext", "Begin", "BeginTx", "Commit", "Rollback":
 							found = true
+							switch sel.Sel.Name {
+							case "Query", "QueryContext", "Begin", "BeginTx":
+								holds = true
+							}
 							return false
 						}
 					}
@@ -645,6 +650,13 @@ func (in *inst) sqlYield(c *astutil.Cursor, s ast.Stmt) {
 		st.accesses++
 		site := &ast.BasicLit{Kind: token.STRING, Value: strconv.Quote(in.site(s) + "#sql")}
 		c.InsertBefore(&ast.ExprStmt{X: in.call("Yield", site)})
+		// a task killed later (process crash) never closes its cursor or transaction; the kernel
+		// would close a dead process's descriptors - the simulator does it for the tracked objects
+		if as, ok := s.(*ast.AssignStmt); ok && holds && len(as.Lhs) >= 1 && len(as.Rhs) == 1 {
+			if id, ok := as.Lhs[0].(*ast.Ident); ok && id.Name != "_" {
+				c.InsertAfter(&ast.ExprStmt{X: in.call("TrackSQL", ast.NewIdent(id.Name))})
+			}
+		}
 	}
 }
 
